@@ -18,6 +18,7 @@
 (*   U       _                    1      yes                               *)
 (*   E       e-acute  U+00E9      2      yes                               *)
 (*   T       hiragana a U+3042    3      yes                               *)
+(*   Z       E-acute  U+00C9      2      yes   (upper-case partner of E)   *)
 (*   K       Thai ko kai U+0E01   3      yes   (lead byte 0xE0, the lowest *)
 (*                                              of the 3-byte range)       *)
 (*   Q       U+1F600 (emoji)      4      no                                *)
@@ -31,12 +32,12 @@
 (***************************************************************************)
 EXTENDS Naturals, Integers, Sequences
 
-Width(c) == CASE c = "E" -> 2 [] c = "T" -> 3 [] c = "K" -> 3 [] c = "Q" -> 4 [] OTHER -> 1
+Width(c) == CASE c = "E" -> 2 [] c = "Z" -> 2 [] c = "T" -> 3 [] c = "K" -> 3 [] c = "Q" -> 4 [] OTHER -> 1
 
-WordTok == {"a", "b", "c", "A", "B", "C", "x", "y", "0", "1", "9", "U", "E", "T", "K"}
+WordTok == {"a", "b", "c", "A", "B", "C", "x", "y", "0", "1", "9", "U", "E", "Z", "T", "K"}
 IsWordTok(c) == c \in WordTok
 
-Fold(c) == CASE c = "A" -> "a" [] c = "B" -> "b" [] c = "C" -> "c" [] OTHER -> c
+Fold(c) == CASE c = "A" -> "a" [] c = "B" -> "b" [] c = "C" -> "c" [] c = "Z" -> "E" [] OTHER -> c
 
 \* byte offset of character position i (0..Len(t))
 RECURSIVE ByteOff(_, _)
